@@ -131,6 +131,7 @@ func chains(thorough bool) []Chain {
 	}
 	out = append(out, Chain{Proto: 4, Mode: "histories"}, Chain{Proto: 6, Mode: "histories"})
 	out = append(out, Chain{Proto: 4, Mode: "graphs"}, Chain{Proto: 6, Mode: "graphs"})
+	out = append(out, Chain{Proto: 4, Mode: "flood"}, Chain{Proto: 6, Mode: "flood"})
 	return out
 }
 
@@ -452,6 +453,10 @@ func worker(args []string) int {
 	}
 	if c.Mode == "histories" {
 		histories(r, c.Proto, thorough)
+		return reg.WorkerExit(r)
+	}
+	if c.Mode == "flood" {
+		flood(r, c.Proto)
 		return reg.WorkerExit(r)
 	}
 	if c.Mode == "graphs" {
@@ -1027,4 +1032,48 @@ func replay(r *ev.Run, raw json.RawMessage) {
 		r.Violate("C01/process-died/replay", lastLines(res.Output), c)
 	}
 	_ = sort.Strings
+}
+
+// flood: thousands of worthless datagrams through ONE real Serve loop (empty, one byte, garbage,
+// each kind 4300 times - beyond any per-process budget of a few thousand), then a well-formed
+// request: it is still answered. The loop runs under the cooperative scheduler (default
+// schedule) inside the operation watchdog: a receive loop that stops reading is a hang.
+func flood(r *ev.Run, proto int) {
+	if !srv.Instrumented() {
+		r.Capped("flood scenario skipped: binary not built with the instrumentation overlay")
+		return
+	}
+	probe := probe4
+	if proto == 6 {
+		probe = probe6
+	}
+	for _, junk := range [][]byte{{}, {0x01}, {0xff, 0xff, 0xff, 0xff}, probe[:len(probe)/2]} {
+		var dgrams [][]byte
+		for i := 0; i < 4300; i++ {
+			dgrams = append(dgrams, junk)
+		}
+		dgrams = append(dgrams, probe)
+		c := Case{Chain: Chain{Proto: proto, Mode: "flood"}, Oob: 1, History: []string{fmt.Sprintf("(4300 x %x)", junk), hex.EncodeToString(probe)}}
+		curMu.Lock()
+		curCase, curAt = &c, time.Now()
+		curMu.Unlock()
+		var out srv.Out
+		if proto == 4 {
+			out = srv.Serve4(net.Interface{}, nil, dgrams, 1)
+		} else {
+			out = srv.Serve6(net.Interface{}, nil, dgrams, 1, &net.UDPAddr{IP: net.ParseIP("2001:db8::99"), Port: 546})
+		}
+		curMu.Lock()
+		curCase = nil
+		curMu.Unlock()
+		cl := fmt.Sprintf("flood/v%d/junk-len=%d/replies=%d", proto, len(junk), out.Replies())
+		r.Eval(cl)
+		if out.Panic != "" {
+			r.Violate("C01/flood/panic", fmt.Sprintf("DHCPv%d Serve loop fed 4300 datagrams %x and one request: %s", proto, junk, firstLine(out.Panic)), c)
+			continue
+		}
+		if out.Replies() < 1 {
+			r.Violate("C01/flood/request-unanswered-after-junk", fmt.Sprintf("DHCPv%d Serve loop: after 4300 datagrams %x a well-formed request was not answered any more", proto, junk), c)
+		}
+	}
 }
